@@ -45,7 +45,7 @@ enga_prop!(C01, "C01", profiles = CHECKED,
     mode = Mode::default(),
     nontrivial = |c| c.contains("recycled-with-2-live"),
     rule = "Engine A histories (alloc_bytes/aligned/typed, owned or borrowed, write, drop, detach, explicit dealloc, fill-to-exhaustion) over generated configs (flavour x freelist x backend x unify x reserved x min segment x max alignment x capacity); after every step: every live range inside [data_offset, allocated()], pairwise disjoint, bytes equal to what was last written through the handle. Non-trivial = at least one allocation served from recycled space (buffer_offset below the pre-call cursor) while >= 2 other handles were live; distinct by FNV-64 of the serialised case",
-    quick = 320_000, thorough = 10_000_000,
+    quick = 800_000, thorough = 10_000_000,
     assumptions = COMMON_ASSUME.to_vec());
 
 enga_prop!(C03A, "C03", profiles = CHECKED,
@@ -77,7 +77,7 @@ enga_prop!(C10, "C10", profiles = CHECKED,
     mode = Mode::default(),
     nontrivial = |c| c.contains("slow-path-3-nodes-tie") || (c.contains("slow-path-3-nodes") && c.contains("remainder-split")),
     rule = "Engine A 'exhaust' histories (fill early, many frees of tied sizes, min-segment changes, discard_freelist, requests sized around the largest/smallest/median segment +-9). After every step the free-list snapshot is finite, 8-aligned, inside the handed-out area, extents disjoint from each other and from live ranges, ordered by size; at every allocation fresh space cannot satisfy, the serving node / failure obeys the Optimistic/Pessimistic policy and the new list = old - serving (+ at most one remainder inside the served extent, >= min segment); Freelist::None never reuses. Non-trivial = a slow-path allocation with >= 3 nodes on the list and a size tie, or with >= 3 nodes and a remainder split",
-    quick = 320_000, thorough = 10_000_000,
+    quick = 800_000, thorough = 10_000_000,
     assumptions = COMMON_ASSUME.to_vec());
 
 enga_prop!(C13A, "C13", profiles = CHECKED,
@@ -93,7 +93,7 @@ enga_prop!(C18, "C18", profiles = CHECKED,
     mode = Mode::default(),
     nontrivial = |c| c.contains("truncate-with-freelist-and-live"),
     rule = "Engine A histories on unsync::Arena with truncate(n), n around allocated()/capacity() and up to 4x capacity, on Vec/anon/file backends; oracle: capacity()==max(n, allocated), allocated/discarded/free list/bytes below allocated unchanged, live ranges intact, afterwards an allocation that fits fresh space must succeed. Non-trivial = a truncate while the free list was non-empty and detached live data existed",
-    quick = 240_000, thorough = 5_000_000,
+    quick = 720_000, thorough = 5_000_000,
     assumptions = { let mut v = COMMON_ASSUME.to_vec(); v.push("truncate is only called while refs()==1 and no handle object exists (it re-creates the backing store)"); v });
 
 enga_prop!(C20, "C20", profiles = CHECKED,
@@ -101,7 +101,7 @@ enga_prop!(C20, "C20", profiles = CHECKED,
     mode = Mode::default(),
     nontrivial = |c| c.contains("discard-nonempty") || (c.contains("release-too-small") && c.contains("slow-path")) || c.contains("release-discarded"),
     rule = "Engine A 'discard' histories (frees of every size class, increase_discarded, set_minimum_segment_size, discard_freelist, clear). Per step: discarded() never decreases except through clear; increase_discarded(n) => +n; Freelist::None non-top release => +size; release producing no node => +size and the range is never handed out again; discard_freelist returns the sum of the size fields, adds exactly that, empties the list. Non-trivial = discard_freelist on a non-empty list, or a too-small release in a history that later used the slow path, or a Freelist::None non-top release",
-    quick = 320_000, thorough = 10_000_000,
+    quick = 800_000, thorough = 10_000_000,
     assumptions = COMMON_ASSUME.to_vec());
 
 enga_prop!(C05, "C05", profiles = CHECKED,
@@ -109,5 +109,5 @@ enga_prop!(C05, "C05", profiles = CHECKED,
     mode = Mode::default(),
     nontrivial = |c| c.contains("reopen-rich"),
     rule = "Engine A histories on file-backed arenas cut by drop + reopen (map_mut / map_copy / map / map_copy_read_only; capacity same, larger, absent; create or create_new; mapping offset 0..2 pages). After each reopen allocated/discarded/data_offset/min segment/magic/version/free list equal the values at close (for a closed map_copy session: the values saved when it was opened, and the file bytes are unchanged), reserved prefix and every handed-out range byte-identical; the history continues with the shadow map carried over, so C01 disjointness and the C10 policy apply to post-reopen allocations; the histories also contain clear, rewind and discard_freelist (whatever an arena went through before it was closed, it must reopen). Non-trivial = a reopen with >= 1 free segment, >= 1 handed-out range and discarded() > 0",
-    quick = 120_000, thorough = 2_000_000,
+    quick = 480_000, thorough = 2_000_000,
     assumptions = { let mut v = COMMON_ASSUME.to_vec(); v.push("files live on tmpfs (/dev/shm); durability of sync_all is not observable in-process"); v });
